@@ -3,6 +3,7 @@
     schedule [sched] (any length, any choice of operations allowed by Rust's
     ownership rules) of the interleaving model [model/BiArc.v] of
     [lender.rs]'s [BiArc]/[Lender]/[Loan]. *)
+From Coq Require Import String.
 From Aranya Require Import base.Tactics base.Interleave gen.GenConc model.BiArc proofs.BiArcProofs.
 
 Theorem at_most_two_handles : at_most_two_handles_stmt.
@@ -32,9 +33,12 @@ Check revoked_after_lender_drop :
   llive (sh g) = false ->
   state (sh g) = false
   /\ (forall sched', llive (sh (brun sched' g)) = false)
-  /\ forall (t : nat) (l : blocal) (o : bop),
-     at_ g t l -> bpc_of l = BGet ->
-     at_ (exec btid bstep g (BEv t o)) t (BL BIdle (loans l) 4).
+  /\ (forall (t : nat) (l : blocal) (o : bop),
+      at_ g t l -> bpc_of l = BGet ->
+      at_ (exec btid bstep g (BEv t o)) t (BL BIdle (loans l) 4))
+  /\ (forall (t : nat) (l : blocal) (o : bop),
+      at_ g t l -> bpc_of l = BGetRef ->
+      at_ (exec btid bstep g (BEv t o)) t (BL BIdle (loans l) 9)).
 Print Assumptions revoked_after_lender_drop.
 
 Theorem freed_exactly_once : freed_exactly_once_stmt.
@@ -48,3 +52,16 @@ Check freed_exactly_once :
   /\ (forall t l, at_ g t l -> busy (bpc_of l) -> freed (sh g) = 0)
   /\ (quiescent g -> freed (sh g) = 1).
 Print Assumptions freed_exactly_once.
+
+(** Model assumption made checkable: every public accessor of [Loan] goes through the
+    conditional getter (regenerated from lender.rs on every run). *)
+Theorem lender_accessors_conditional : lender_accessors_stmt.
+Proof. exact lender_accessors_proof. Qed.
+Check lender_accessors_conditional :
+  lender_accessors =
+  [("Lender", "pub new", "");
+   ("Lender", "pub lend", "try_clone");
+   ("Lender", "pub shared", "get_unconditional");
+   ("Loan", "pub get_ref", "get_if_shared");
+   ("Loan", "pub get_mut", "get_if_shared")]%string.
+Print Assumptions lender_accessors_conditional.
